@@ -1,1 +1,4 @@
 pub mod c01;
+pub mod c18;
+pub mod c19;
+pub mod c20;
